@@ -15,7 +15,9 @@ RULE = ("random lint-clean blackbox-free acyclic circuits (1-6 inputs, 1-8 gates
         "a single name given as str, subsets of outputs, arbitrary node subsets, selections that do not contain n in their cone "
         "= rejection stream); three case kinds: sz (sensitization_transform + sensitize), sv (sensitivity_transform + "
         "sensitivity; all valuations of the <= 6 cone startpoints simulated on the recorded transform), inf (influence + "
-        "avg_sensitivity, exact mode). non-trivial = n has >= 2 startpoints in its cone or a gate between n and an endpoint; "
+        "avg_sensitivity, exact mode), multi (ONE circuit object: influence / avg_sensitivity with ns a list of 2-3 nodes with different "
+        "cones -- every entry of the returned dict is judged --, then node by node as str, sensitivity / sensitize / transforms per "
+        "node, the list query again; argument must be unchanged at the end). non-trivial = n has >= 2 startpoints in its cone or a gate between n and an endpoint; "
         "distinct = canonical input")
 EXPLANATION = ("transform models written through the verified API model and tied to tx.py by graph equality; the property is decided per "
                "case by brute force of the definitions (evalc on the original circuit) against certified simulation of the recorded "
@@ -166,6 +168,33 @@ def gen_inf(rng, tier):
         return {"kind": "inf", "circuit": d, "n": n}
 
 
+def gen_multi(rng, tier):
+    """several nodes of ONE circuit object: influence / avg_sensitivity with `ns` a list of 2-3 nodes whose cones differ, then the
+    same queries node by node (str), sensitivity / sensitize per node, and the list query once more (history dependence)"""
+    while True:
+        if rng.random() < 0.3:
+            # the shape of a chain of growing cones: g=f(a,b), w=f(g,d), z=f(w,e)
+            t = lambda: rng.choice(["and", "or", "xor", "nand", "nor", "xnor"])
+            nodes = [[i, "input", False, []] for i in ("a", "b", "d", "e")]
+            nodes += [["g", t(), False, ["a", "b"]], ["h", t(), rng.random() < 0.5, ["a", "b"]],
+                      ["w", t(), True, ["g", "d"]], ["z", t(), True, ["w", "e"]]]
+            d = {"name": "top", "nodes": nodes, "bbs": []}
+            if rng.random() < 0.5:
+                d = lib.shuffle_nodes(rng, d)
+        else:
+            d, _ = gen_circuit(rng, tier, 5)
+        if len(d["nodes"]) > 12:
+            continue
+        cand = [x[0] for x in d["nodes"] if x[1] != "input" and 1 <= len(cone_sp(d, x[0])) <= 5 and len(cone(d, [x[0]])) <= 10]
+        cones = {n: tuple(cone_sp(d, n)) for n in cand}
+        if len(set(cones.values())) < 2:
+            continue
+        for _ in range(20):
+            ns = rng.sample(cand, min(len(cand), rng.choice([2, 2, 3])))
+            if len({cones[n] for n in ns}) >= 2:
+                return {"kind": "multi", "circuit": d, "n": ns[0], "ns": ns}
+
+
 def generate(rng, tier):
     n = 50 if tier == "quick" else 150
     out = []
@@ -174,6 +203,8 @@ def generate(rng, tier):
         out.append(gen_inf(rng, tier))
     for _ in range(n * 4 // 5):
         out.append(gen_sv(rng, tier))
+    for _ in range(n // 2):
+        out.append(gen_multi(rng, tier))
     # fixed small shapes: power-of-two cone sizes 1, 2, 4 with a node of full sensitivity (top bit of the count is exercised);
     # they go first (largest first) so that the expensive shards start early
     rand_cases, out = out, []
@@ -240,6 +271,45 @@ def impl(case):
                 obs["sensitize"] = None if r is None else sorted([k, bool(v)] for k, v in r.items())
             except Exception as e:
                 obs["sensitize_exc"] = exc_name(e)
+    elif case["kind"] == "multi":
+        ns = case["ns"]
+        obs["sps"] = {m: list(c.startpoints(m)) for m in ns}
+
+        def infl(arg):
+            try:
+                r = cg.props.influence(c, arg, approx=False)
+                if isinstance(arg, str):
+                    r = {arg: r}
+                return {"ok": {m: sorted([k, frac(v)] for k, v in r[m].items()) for m in r}}
+            except Exception as e:
+                return {"exc": exc_name(e)}
+
+        def avg(arg):
+            try:
+                r = cg.props.avg_sensitivity(c, arg, approx=False)
+                if isinstance(arg, str):
+                    r = {arg: r}
+                return {"ok": {m: frac(v) for m, v in r.items()}}
+            except Exception as e:
+                return {"exc": exc_name(e)}
+
+        calls = [["list", infl(list(ns)), avg(list(ns))]]
+        for m in ns:
+            calls.append(["str:" + m, infl(m), avg(m)])
+        sens = {}
+        for m in ns:
+            try:
+                sens[m] = {"ok": int(cg.props.sensitivity(c, m))}
+            except Exception as e:
+                sens[m] = {"exc": exc_name(e)}
+            try:
+                cg.props.sensitize(c, m)
+                cg.tx.sensitization_transform(c, m, [m])
+            except Exception:
+                pass
+        calls.append(["list-again", infl(list(ns)), avg(list(ns))])
+        obs["calls"] = calls
+        obs["sens"] = sens
     elif case["kind"] == "sv":
         sp = list(c.startpoints(n))
         obs["sp"] = sp
@@ -308,6 +378,30 @@ def to_coq(case, obs):
         else:
             S = "None"
         return f"CSz {C} {n} {E} {T} {S}"
+    if case["kind"] == "multi":
+        items = []
+        for label, ir, ar in obs["calls"]:
+            nodes = case["ns"] if not label.startswith("str:") else [label[4:]]
+            for m in nodes:
+                if "ok" in ir and m in ir["ok"]:
+                    I = "(Ok %s)" % cl("(%s,%s)" % (cs(k), cq(v)) for k, v in ir["ok"][m])
+                elif "ok" in ir:
+                    I = "(Raise KeyError)"          # the node is missing from the returned dict
+                else:
+                    I = cexc(ir["exc"])
+                if "ok" in ar and m in ar["ok"]:
+                    A = "(Ok %s)" % cq(ar["ok"][m])
+                elif "ok" in ar:
+                    A = "(Raise KeyError)"
+                else:
+                    A = cexc(ar["exc"])
+                items.append(f"CInf {C} {cs(m)} {csl(obs['sps'][m])} {I} {A}")
+        for m in case["ns"]:
+            r = obs["sens"][m]
+            S = "(Ok %s)" % cnat(r["ok"]) if "ok" in r else cexc(r["exc"])
+            items.append(f"CSens {C} {cs(m)} {csl(obs['sps'][m])} {S}")
+        items = list(dict.fromkeys(items))      # equal answers of the repeated / str / list calls are evaluated once
+        return "CBatch %s" % cl(items)
     if case["kind"] == "sv":
         sp = obs["sp"]
         pc = ccirc(obs["pc"]) if "pc" in obs else '(mk "popcount" [] [])'
@@ -348,6 +442,9 @@ def classify(case, obs):
             out.append("sz:exc=" + obs["T_exc"])
         if "sensitize" in obs:
             out.append("sensitize:" + ("none" if obs["sensitize"] is None else "found"))
+    elif case["kind"] == "multi":
+        out.append("multi:%d-nodes" % len(case["ns"]))
+        out.append("multi:distinct-cones=%d" % len({tuple(cone_sp(d, m)) for m in case["ns"]}))
     elif case["kind"] == "sv":
         if "sens" in obs:
             out.append("sens=%d" % obs["sens"])
@@ -380,7 +477,7 @@ def mutate_case(rng, case):
     if _MUTATE_BUDGET[0] <= 0:
         return {"kind": "skip"}
     _MUTATE_BUDGET[0] -= 1
-    return {"sz": gen_sz, "sv": gen_sv, "inf": gen_inf}.get(case.get("kind"), gen_sz)(rng, "quick")
+    return {"sz": gen_sz, "sv": gen_sv, "inf": gen_inf, "multi": gen_multi}.get(case.get("kind"), gen_sz)(rng, "quick")
 
 
 CLAIMED = True
